@@ -24,7 +24,7 @@ UNCOVERED = ['hellos with more than 2 cipher suites, more than 2 groups / 2 poin
              '(the per-item treatment is uniform: one loop iteration / one comprehension element per item)',
              'the MD5 digest of the JA3 string is not part of the library (ja3() returns the string)']
 BOUNDED = ['client hellos with at most 2 cipher suites (1 with the three-extension templates) and the extension templates [], [unparsed], [groups(<=2)], [formats(<=2)], '
-           '[unparsed, groups(1), formats(1)], [groups(1), unparsed, formats(1)]: every code symbolic over its whole code space']
+           '[unparsed, groups(1), formats(1)], [groups(1), unparsed, formats(1)], [supported_versions(1)]: every code symbolic over its whole code space']
 
 KF_GREASE = 'KF-C15-ja3-keeps-grease-cipher-suites'
 KF_SCSV = 'KF-C15-ja3-drops-scsv-cipher-suites'
@@ -36,6 +36,7 @@ TEMPLATES = {
     'formats': ['f2'],
     'unparsed+groups+formats': ['u', 'g1', 'f1'],
     'groups+unparsed+formats': ['g1', 'u', 'f1'],
+    'supported_versions': ['v'],
 }
 
 
@@ -100,6 +101,15 @@ def sym_hello(P, template):
             ty = I.construct(TlsInvalidTypeTwoByte, [SInt(c)], {})
             exts.append(I.construct(TlsExtensionUnparsed, [ty, b''], {}))
             wire['exts'].append(('type', c, None))
+        elif t == 'v':
+            # supported_versions (RFC 8446 4.2.1) with one symbolic version: JA3 still prints the version FIELD of the hello
+            from cryptoparser.tls.extension import TlsExtensionSupportedVersionsClient
+            sidx = z3.Int('supported_version_%d' % k)
+            P.assume(z3.And(sidx >= 0, sidx < len(members)))
+            P.inputs['supported_version_%d' % k] = SEnum(TlsVersion, sidx)
+            sv = I.construct(TlsProtocolVersion, [SEnum(TlsVersion, sidx)], {})
+            exts.append(I.construct(TlsExtensionSupportedVersionsClient, [[sv]], {}))
+            wire['exts'].append(('type', z3.IntVal(TlsExtensionType.SUPPORTED_VERSIONS.value.code), None))
         elif t[0] == 'g':
             cs = []
             for j in range(int(t[1])):
@@ -198,7 +208,11 @@ def ja3_unit(template, grease_known, scsv_known):
             P.assume(z3.Not(wire['fb']))
             P.assume(z3.Not(wire['er']))
         snapshot = vc.clone(o)
-        got = I.call(I.getattr_(o, 'ja3'), [], {})
+        out = vc.outcome_of(lambda: I.call(I.getattr_(o, 'ja3'), [], {}))
+        if out.kind != 'ret':
+            e1.record_path_fact(P, 'JA3 [%s]: ja3() returns a string (raised %s)' % (template, out.value.cls.__name__), False)
+            return
+        got = out.value
         vc.oblige_equal(P, 'ja3() leaves the hello unchanged', o, snapshot)
         want = ja3_spec(P, wire)
         oblige_text_equal(P, 'JA3 [%s]' % template, got, want)
@@ -261,7 +275,10 @@ def build_native(vals, template):
     suites = [item(TlsCipherSuite, TlsInvalidTypeTwoByte, vals[k]) for k in ('suite_0', 'suite_1') if k in vals]
     exts = []
     for k, t in enumerate(TEMPLATES[template]):
-        if t == 'u':
+        if t == 'v':
+            from cryptoparser.tls.extension import TlsExtensionSupportedVersionsClient
+            exts.append(TlsExtensionSupportedVersionsClient([TlsProtocolVersion(vals.get('supported_version_%d' % k, TlsVersion.TLS1_3))]))
+        elif t == 'u':
             exts.append(TlsExtensionUnparsed(TlsInvalidTypeTwoByte(vals.get('ext_type_%d' % k, 0xff01)), b''))
         elif t[0] == 'g':
             cs = [vals[n] for n in ('group_%d_0' % k, 'group_%d_1' % k) if n in vals]
@@ -303,7 +320,7 @@ def _vals(inputs):
     for k, v in inputs.items():
         if isinstance(v, bool) or isinstance(v, int):
             vals[k] = v
-        elif isinstance(v, dict) and 'member' in v and k == 'version':
+        elif isinstance(v, dict) and 'member' in v and (k == 'version' or k.startswith('supported_version_')):
             vals[k] = TlsVersion[v['member']]
     return vals
 
@@ -326,6 +343,7 @@ def search_for(template, gk, sk):
                         fallback_scsv=rnd.random() < 0.3, empty_renegotiation_info_scsv=rnd.random() < 0.3)
             if rnd.random() < 0.5:
                 vals['suite_1'] = rnd.choice(pool2)
+            vals['supported_version_0'] = rnd.choice(list(TlsVersion))
             for k in range(3):
                 vals['ext_type_%d' % k] = rnd.choice([c for c in pool2 + [rnd.randrange(65536)] if c not in (10, 11)])
                 vals['group_%d_0' % k] = rnd.choice(pool2)
